@@ -96,6 +96,9 @@ func H_C08_endings() {
 	v := vNewSrv(opts...)
 	nc := vNetConn("c1")
 	inflight := vLen("inflight", 2)
+	if vBool("closeFails") {
+		vConnSet(nc, "closeErr", true) // e.g. a TLS connection the client reset: Close reports an error
+	}
 	if inflight > 0 && vBool("clientNotReading") {
 		// the client stops reading: responses block in Write until a deadline or close
 		vConnSet(nc, "writeBlock", true)
@@ -201,6 +204,7 @@ const (
 	fltMalformed
 	fltWriteFail
 	fltAcceptTemp
+	fltNotReading
 	fltKinds
 )
 
@@ -243,6 +247,11 @@ func H_C07_faults() {
 	case fltWriteFail:
 		vConnSet(c1, "writeFail", true)
 		vConnFeed(c1, vWire(refEnvelope(1, refDeleteOp(), nil)))
+	case fltNotReading:
+		// the client stops reading: its handler stays blocked inside Write
+		vConnSet(c1, "writeBlock", true)
+		vConnFeed(c1, vWire(refEnvelope(1, refDeleteOp(), nil)))
+		vConnFeedBlock(c1)
 	}
 	vConnFeed(c2, vWire(refEnvelope(1, refDeleteOp(), nil)))
 	vConnFeedBlock(c2) // the bystander stays connected
@@ -270,7 +279,7 @@ func H_C07_faults() {
 	mu.Unlock()
 	vAssertE(vConnWrites(c2) == 1, "exactly one response frame reaches the bystander")
 	vAssertE(vConnClosed(c2) == 0, "the bystander connection stays open")
-	if fault != fltAcceptTemp && fault != fltHandlerPanic {
+	if fault != fltAcceptTemp && fault != fltHandlerPanic && fault != fltNotReading {
 		vAssertE(vConnClosed(c1) == 1, "the faulty connection is closed")
 	}
 	if fault == fltHandlerPanic {
@@ -446,6 +455,9 @@ func H_C12_orders() {
 	vConnFeed(nc, vWire(refEnvelope(1, refDeleteOp(), nil)))
 	if vBool("clientNotReading") {
 		vConnSet(nc, "writeBlock", true)
+	}
+	if vBool("closeFails") {
+		vConnSet(nc, "closeErr", true)
 	}
 	twice := vBool("stopTwice")
 	switch order {
